@@ -169,7 +169,13 @@ def coq_expr(case, out):
             f"&& {tan_check})%bool | None => false end")
 
 
+_SHOWN = [0]
+
+
 def show_model(case, out):
+    _SHOWN[0] += 1
+    if _SHOWN[0] > 3:        # check.py asks for every mismatching case; evaluate the first few only
+        return None
     k = kind(case)
     s = natl(case["shape"])
     arr = f"(of_flat {s} {lst(case['vals'], qlit)} (q 0 1))"
@@ -182,8 +188,13 @@ def show_model(case, out):
     return core.coq_eval_text(PID, COQ_HEADER, f"option_map (fun r => (shp r, map (fun v => (Qnum (this v), Qden (this v))) (to_list r))) ({call})")[-1200:]
 
 
+def rel(case):
+    s, n = case["shape"], len(case["mats"])
+    return "scalar" if not s else ("last==n" if s[-1] == n else "last==1" if s[-1] == 1 else "last-other")
+
+
 def key_of(case):
-    return f"{kind(case)}-n{len(case['mats'])}-shape{'x'.join(str(v) for v in case['shape'])}"
+    return kind(case)
 
 
 def predicate(case, out):
@@ -208,7 +219,8 @@ def predicate(case, out):
             al = [frac(a) for a in al_h]
             dist = [abs(x - a) for a in al]
             exp = dist.index(min(dist))
-            if y != exp:
+            # any minimiser satisfies the statement; the lowest-index rule on exact ties is checked by the model comparison
+            if y.denominator != 1 or not (0 <= y < n) or dist[int(y)] != min(dist):
                 return ("nearest-" + key, f"voxel {i}: value {float(x)} -> index {float(y)}, nearest allowed inverse permittivity {[float(a) for a in al]} is index {exp}")
         else:
             if y.denominator != 1 or not (0 <= y <= n - 1) or any(abs(x - y) > abs(x - j) for j in range(n)):
@@ -223,10 +235,7 @@ def nontrivial(case, out):
 
 
 def classify(case, out):
-    s = case["shape"]
-    n = len(case["mats"])
-    rel = "scalar" if not s else ("last==n" if s[-1] == n else "last==1" if s[-1] == 1 else "last-other")
-    return f"{kind(case)}/{rel}" + ("/error" if "error" in out else "")
+    return f"{kind(case)}/{rel(case)}" + ("/error" if "error" in out else "")
 
 
 def search(ctx, broken):
